@@ -289,11 +289,11 @@ class TableParser:
         while i < len(children):
             token = children[i]
             if token.tagname not in ("ref",) and (
-                token.text is None or token.text.startswith("\n")
+                token.text is None or token.type in (T.t_newline, T.t_break)
             ):
                 self.parse_complex_caption(children, start, i, modifier)
                 return
-            elif token.text == "|" and modifier is None:
+            elif token.type == T.t_special and token.text == "|" and modifier is None:
                 modifier = i
             elif token.type == T.t_2box_open and modifier is None:
                 modifier = 0
